@@ -332,3 +332,64 @@ def check_history(spec, ctx):
 
 PARTS["history"] = {"strategy": spec_history, "check": check_history, "examples": {"quick": 2400, "thorough": 24000}, "sample": sample_view}
 REQUIRED_STRATA = {"all": ["history:hist:meta_nogrid", "history:hist:opes", "history:hist:abmd"]}
+
+
+# --------------------------------------------------------------------------------------------
+# analytic hills on a periodic variable, deposited on both sides of the periodic boundary: energy and force must use the same
+# (minimum-image) distance
+
+@st.composite
+def spec_phills(draw, tier):
+    P = draw(st.sampled_from([2.0, 4.0, 6.0]))
+    lower = draw(st.sampled_from([-3.0, 0.0, 1.0]))
+    width = draw(st.sampled_from([0.25, 0.5]))
+    hw = draw(st.sampled_from([1.0, 2.0]))
+    sigma = 0.5 * hw * width
+    K = draw(st.integers(2, 6))
+    side = draw(st.sampled_from([lower, lower + P]))       # both names of the boundary
+    offs = [rnd(draw(fl(-2.0, 2.0)) * sigma, 3) for _ in range(K)]
+    last = rnd(draw(fl(-1.5, 1.5)) * sigma, 3)
+    return {"P": P, "lower": lower, "width": width, "hw": hw, "W": rnd(draw(fl(0.2, 3.0)), 2), "side": side, "offs": offs, "last": last,
+            "wt": draw(st.booleans())}
+
+
+def check_phills(spec, ctx):
+    from lib import cvz
+    P, lower = spec["P"], spec["lower"]
+
+    def wrapped(x):
+        return x - P * math.floor((x - lower) / P)
+    cfg = cvz.zvar("z0", 1, lower, lower + P, spec["width"], periodic=True)
+    cfg += "\nmetadynamics {\n  name b1\n  colvars z0\n  hillWeight %s\n  hillWidth %s\n  newHillFrequency 1\n  useGrids off\n%s}\n" % (
+        gen.fmt(spec["W"]), gen.fmt(spec["hw"]), "  wellTempered on\n  biasTemperature 2000\n" if spec["wt"] else "")
+    L = cvz.header(2, 0, temperature=300.0) + ["config <<END\n%s\nEND" % cfg]
+    xs = [wrapped(spec["side"] + o) for o in spec["offs"]] + [wrapped(spec["side"] + spec["last"])]
+    # step 0 deposits nothing; the hills are deposited at steps 1..K; the last position is evaluated as a repeated first step
+    L += [cvz.pos_line_z([xs[0]], 2), "step"]
+    for x in xs[:-1]:
+        L += [cvz.pos_line_z([x], 2), "step"]
+    L += [cvz.pos_line_z([xs[-1]], 2), "fd %s 0 %s" % (fnum(H), fnum(ETA))]
+    case = "\n".join(L) + "\n"
+    r = run_case(case)
+    if r.crashed:
+        return Outcome(False, msg="crash rc=%s\n%s" % (r.returncode, r.stderr), sig="crash", case_text=case)
+    if r.of("config")[0]["rc"] != 0:
+        return Outcome(False, msg="generated configuration rejected: %s" % r.of("config")[0]["errs"], sig="gen_invalid", case_text=case)
+    fd = r.of("fd")
+    if not fd:
+        return Outcome(False, msg="no fd record; stderr=%s" % r.stderr, sig="no_fd", case_text=case)
+    sp2 = {"sys": {"natoms": 2, "cell": None}, "cvs": [{"comps": [{"tkey": "distanceZ_periodic", "exp": 1, "coeff": 1.0, "comp": {"groups": []}}]}],
+           "biases": [{"type": "meta_nogrid"}]}
+    last = {"E": fd[0]["E0"]}
+    out = compare_fd(sp2, fd[0], last, case, extra_cls=("phills",))
+    # a hill centre on the other side of the boundary from the evaluation point, within reach by the minimum image
+    sigma = 0.5 * spec["hw"] * spec["width"]
+    across = sum(1 for c in xs[:-1] if abs(c - xs[-1]) > 0.5 * P and P - abs(c - xs[-1]) < 3.0 * sigma)
+    if out.ok:
+        out.nontrivial = bool(out.nontrivial) and across >= 1
+    out.strata = list(out.strata or []) + ["phills"] + (["phills_across"] if across else [])
+    return out
+
+
+PARTS["periodic_hills"] = {"strategy": spec_phills, "check": check_phills, "examples": {"quick": 1600, "thorough": 20000}, "sample": lambda s_: s_}
+REQUIRED_STRATA = {"all": REQUIRED_STRATA["all"] + ["periodic_hills:phills_across"]}
